@@ -476,23 +476,23 @@ INSTANCES["over_recover_c"] = (dict(INSTANCES["over_recover"][0], cancelable=Tru
 
 # what a burst of concurrent cancelled traces leaves behind (wave 10: finished traces' collector entries pooled and
 # cleared only on reuse): 26 small cancelable traces one after the other (warm-up, the heap reference is taken after
-# the 26th), then six traces with fifteen buffered children each, open at the same time, cancelled after a cycle;
+# the 26th), then twelve traces (two threads) with fifteen buffered children each, open at the same time, cancelled after a cycle;
 # then small traces again - the bytes allocated at quiescence must be back where they were
 def _small_c(k):
     return [dict(ev="spawn", t=1), dict(_c("root", h=101, tr=1, smp=True), t=1), dict(_c("child", h=102, ps=[101], multi=False), t=1),
             dict(_c("drop", h=102), t=1), dict(ev="cycle"), dict(_c("drop", h=101), t=1), dict(ev="push", t=1), dict(_c("exit"), t=1), dict(ev="cycle"), dict(ev="cycle")]
 def _burst_cancel():
-    st = [dict(ev="spawn", t=1)]
-    roots = [101 + 16 * i for i in range(6)]
-    for i, r in enumerate(roots):
-        st.append(dict(_c("root", h=r, tr=1 + i, smp=True), t=1))
-    for r in roots:
+    st = [dict(ev="spawn", t=1), dict(ev="spawn", t=2)]
+    roots = [(t, 100 * t + 1 + 16 * i) for t in (1, 2) for i in range(6)]
+    for i, (t, r) in enumerate(roots):
+        st.append(dict(_c("root", h=r, tr=1 + i, smp=True), t=t))
+    for t, r in roots:
         for j in range(1, 16):
-            st += [dict(_c("child", h=r + j, ps=[r], multi=False), t=1), dict(_c("drop", h=r + j), t=1)]
+            st += [dict(_c("child", h=r + j, ps=[r], multi=False), t=t), dict(_c("drop", h=r + j), t=t)]
         st.append(dict(ev="cycle"))
-    for r in roots:
-        st += [dict(_c("cancel", h=r), t=1), dict(_c("drop", h=r), t=1), dict(ev="push", t=1)]
-    st += [dict(ev="cycle"), dict(_c("exit"), t=1), dict(ev="cycle"), dict(ev="cycle")]
+    for t, r in roots:
+        st += [dict(_c("cancel", h=r), t=t), dict(_c("drop", h=r), t=t), dict(ev="push", t=t)]
+    st += [dict(ev="cycle"), dict(_c("exit"), t=1), dict(_c("exit"), t=2), dict(ev="cycle"), dict(ev="cycle")]
     return st
 EXTRA["churn_pool_c"] = dict(cfg=dict(K=64, cancelable=True, churn=True), repeat=1,
                              behaviours=[dict(steps=_small_c(0), prefix=True)] * 26 + [dict(steps=_burst_cancel(), prefix=True)] + [dict(steps=_small_c(0), prefix=True)] * 8)
